@@ -113,8 +113,14 @@ func runC11(o *out, r *rng, thorough bool, replay string) {
 		viol := func(clause, sig, detail string) {
 			o.violate(clause, sig, map[string]any{"history": append([]string{}, desc...)}, detail)
 		}
+		heavy := hi%3 == 1 // every third history: mostly large records, so that SIZE-triggered rotations happen often
 		mkEntry := func() *vEntry {
 			sz := r.intn(64)
+			if heavy && r.chance(65) {
+				e := &vEntry{Epoch: uint64(r.intn(12)), ID: nextID, Payload: bytes.Repeat([]byte{byte(nextID)}, 350000+r.intn(400000))}
+				nextID++
+				return e
+			}
 			switch r.intn(10) {
 			case 0:
 				sz = 200000 + r.intn(200000)
@@ -198,9 +204,24 @@ func runC11(o *out, r *rng, thorough bool, replay string) {
 				acked[e.ID] = e.Epoch
 				ackOrder = append(ackOrder, e.ID)
 				epochs[e.Epoch] = true
+				rotBefore := rotations
 				fn := freshName()
 				ops = append(ops, fmt.Sprintf("WAppend (mkRec %s %s %d) %s", cU(e.Epoch), cU(e.ID), encLen(e), cName(fn)))
 				desc = append(desc, fmt.Sprintf("append id=%d epoch=%d size=%d", e.ID, e.Epoch, encLen(e)))
+				if rotations > rotBefore && len(ackOrder) > 1 && e.Epoch > 0 && r.chance(50) {
+					// directed: the append opened a new file; close it and purge right at the new record's epoch
+					must(w.Rotate())
+					ops = append(ops, "WFlush")
+					desc = append(desc, "flush")
+					must(w.Purge(e.Epoch))
+					if e.Epoch > purgedBelow {
+						purgedBelow = e.Epoch
+					}
+					ops = append(ops, fmt.Sprintf("WPurge %s", cU(e.Epoch)))
+					desc = append(desc, fmt.Sprintf("purge %d", e.Epoch))
+					checkAll()
+					checkFiles()
+				}
 			case k < 63:
 				if r.bool() {
 					must(w.Rotate())
